@@ -52,6 +52,10 @@ pub struct Mon {
     /// some command was executed without a trap round right before it
     pub unannounced_command: bool,
     pub commands: nat,
+    /// the trap action run last ended with a divert (break / return / exit / interrupt)
+    pub last_trap_diverted: bool,
+    /// a command was executed although the trap action run right before it had diverted
+    pub command_after_divert: bool,
     pub owed: Option<(signal::Number, int)>,
     pub taken_commands: nat,
     pub runs: nat,
@@ -82,12 +86,13 @@ pub fn run_trap<S>(env: &mut Env<S>, cond: Condition, code: Rc<Code>, origin: Lo
         final(env).mon@ == (Mon {
             wrong: old(env).mon@.wrong || old(env).mon@.in_trap || !(cond matches Condition::Signal(n) && old(env).mon@.owed == Some((n, code.verif_id))),
             owed: None,
+            last_trap_diverted: r is Break,
             runs: old(env).mon@.runs + 1,
             ..old(env).mon@ })
 { unimplemented!() }
 impl<S: Runtime> Env<S> {
     #[verifier::external_body]
-    pub fn poll_signals(&mut self) -> (r: Option<Rc<SignalList>>) ensures final(self).mon@ == (Mon { round_done: true, ..old(self).mon@ }) { unimplemented!() }
+    pub fn poll_signals(&mut self) -> (r: Option<Rc<SignalList>>) ensures final(self).mon@ == (Mon { round_done: true, last_trap_diverted: false, ..old(self).mon@ }) { unimplemented!() }
     #[verifier::external_body]
     pub fn sigint_has_default_action(&self) -> (r: bool) { unimplemented!() }
 }
@@ -105,7 +110,7 @@ pub trait Command<S> { fn execute(&self, env: &mut Env<S>) -> Result; }
 impl<S> Command<S> for List {
     #[verifier::external_body]
     fn execute(&self, env: &mut Env<S>) -> (r: Result)
-        ensures final(env).mon@ == (Mon { unannounced_command: old(env).mon@.unannounced_command || !old(env).mon@.round_done, round_done: false, commands: old(env).mon@.commands + 1, ..old(env).mon@ })
+        ensures final(env).mon@ == (Mon { unannounced_command: old(env).mon@.unannounced_command || !old(env).mon@.round_done, command_after_divert: old(env).mon@.command_after_divert || old(env).mon@.last_trap_diverted, round_done: false, commands: old(env).mon@.commands + 1, ..old(env).mon@ })
     { unimplemented!() }
 }
 impl<S> Env<S> {
